@@ -917,6 +917,7 @@ class FnLower:
             return "::".join(e[1])
         if k == "num": return str(e[1])
         if k == "float": return e[1]
+        if k == "bool": return "true" if e[1] else "false"          # round 7 (worker T): `c.flag = true` as a skeleton effect key
         if k == "mcall":
             r, a = c(e[1]), call_args(e[3]); return None if r is None or a is None else f"{r}.{e[2]}{a}"
         if k == "field": r = c(e[1]); return None if r is None else f"{r}.{e[2]}"
@@ -1227,7 +1228,9 @@ class FnLower:
         if exn is not None: return self.extern_call(exn, env, ops)
         r0 = strip_paren(recv[2]) if recv[0] == "ref" and not recv[1] else recv
         if m in ("value", "bit_count", "reduce") and not (r0[0] == "path" and len(r0[1]) == 1 and r0[1][0] in env and env[r0[1][0]].kind != "handle") \
-                and (self.abstracted(r0, env) is not None or self.abs_indexed(r0, env, mark=False) is not None):
+                and (self.abstracted(r0, env) is not None or self.abs_indexed(r0, env, mark=False) is not None
+                     or (r0[0] == "index" and strip_paren(r0[1])[0] == "path" and len(strip_paren(r0[1])[1]) == 1 and strip_paren(r0[1])[1][0] in env
+                         and env[strip_paren(r0[1])[1][0]].kind == "modlist")):          # round 7 (worker T): `moduli[i].value()` on a `&[Modulus]` parameter
             rv = self.ex(r0, env, ops)                      # a modulus obtained from an abstracted accessor (`self.t`, `base_q[i]`)
             if rv.ty != "mod": self.fail(f"method {m}() on a value of type {rv.ty}")
             if m == "value" and not args: return ("v", Val(f"{rv.atom}.value", "u64", rv.deps))
@@ -1493,6 +1496,9 @@ class FnLower:
         for blk in (e[2], e[3]):
             a, d = assigned([blk[0], blk[1]])
             outer = {x for x in a if isinstance(x, str) and x in env and x not in d}
+            # round 7 (worker T, soundness fix): a mutable slice / Vec passed BARE to a call inside the branch (a re-borrow of a `&mut`) is written by
+            # the callee; the updated value would be lost when the branch's value is bound (found on `HeContext::new`: `let first = if .. { .. f(&mut map) .. }`)
+            outer |= {x[1] for x in a if not isinstance(x, str) and x[1] in env and x[1] not in d and env[x[1]].kind == "list" and getattr(env[x[1]], "mut", False)}
             if outer: self.fail(f"`if` used as a value assigns outer variables {sorted(outer)}")
         ops0 = []
         c = self.ex(e[1], env, ops0)
@@ -2069,6 +2075,11 @@ class FnLower2(FnLower):
             if r.ty not in WORD or i.ty not in WORD: self.fail(f"slice element assignment of {r.ty} at index of type {i.ty}", ln)
             ops.append(("bind", v.lean, f"setIdx {v.lean} {i.atom} {r.atom}")); self.monadic_used = True
             return
+        if l0[0] == "path" and len(l0[1]) == 1 and op is None and self.lookup(env, l0[1][0], ln).kind == "list" and env[l0[1][0]].mut and getattr(env[l0[1][0]], "vec", False):
+            # round 7 (worker T): `v = <Vec<u64> value>` on a mutable `Vec<u64>` (whole-vector assignment, e.g. `v = vec![0; n]`)
+            v = env[l0[1][0]]; r = self.ex(rhs, env, ops)
+            if r.ty != "list": self.fail(f"assignment of {r.ty} to the vector `{l0[1][0]}`", ln)
+            ops.append(("let", v.lean, unparen(r.atom))); return
         lean, ty, isinit, setinit = self.lhs_target(lhs, env, ln)
         if op is None:
             t = self.ex_into(lean, rhs, env, ops)
@@ -3311,6 +3322,9 @@ def gen_all(repo):
             elif spec.get("ser_mode"):        # phase 4i: stream programs of src/serialize.rs (tools/rs2lean_ser.py)
                 import rs2lean_ser
                 res[name] = rs2lean_ser.generate(sys.modules[__name__], tr, spec)
+            elif spec.get("ctx_mode"):          # round 7 (worker T): statement ranges of `HeContext::validate` (tools/rs2lean_ctx.py)
+                import rs2lean_ctx
+                res[name] = rs2lean_ctx.generate(sys.modules[__name__], tr, spec)
             else: res[name] = ladder_file(tr, spec) if spec.get("ladder") else tr.run_file(spec)
         except (Unsupported, SystemExit) as ex: res[name] = GenFailed(str(ex))
         except Exception as ex: res[name] = GenFailed("translator error: %s: %s" % (type(ex).__name__, ex))
@@ -3869,6 +3883,9 @@ FILES += [
 # (task S) data skeletons of `bgv_square` / `ckks_square` (tables in tools/rs2lean_sq.py)
 from rs2lean_sq import square_tables
 TABLE_EVALCT += square_tables(EV, CSZ, PLEN, SC_OK, SC_OK_FIRST, _scale_ok)
+
+import rs2lean_ctx as _rs2lean_ctx          # round 7 (worker T): Gen/ContextFns.lean (tables in tools/rs2lean_ctx.py)
+FILES += [("ContextFns.lean", _rs2lean_ctx.SPEC)]
 
 if __name__ == "__main__":
     res = gen_all(sys.argv[1])
